@@ -24,7 +24,9 @@ func c02Alphabet() (calls []e1.Call, batches map[string]c02Batch) {
 	d2 := bD("_id", int32(2), "u", int32(2), "n", int32(1), "arr", int32(5))
 	d3 := bD("_id", int32(3), "u", int32(3), "n", int32(2))
 	d4 := bD("_id", int32(4), "u", int32(1))
-	for _, d := range []bson.D{d1, d2, d3, d4} {
+	// arrays nested directly in arrays: a rejected update must not leave a positional write behind
+	d5 := bD("_id", int32(5), "u", int32(5), "s", "y", "g", bson.A{bson.A{int32(0), int32(1)}, bson.A{int32(2)}}, "h", bD("k", bson.A{bD("m", bson.A{int32(1)})}))
+	for _, d := range []bson.D{d1, d2, d3, d4, d5} {
 		add(cInsertOne("d", "c", d))
 	}
 	add(cCreateIndex("d", "c", bD("u", int32(1)), idxOpt{unique: true}))
@@ -42,6 +44,8 @@ func c02Alphabet() (calls []e1.Call, batches map[string]c02Batch) {
 	add(cUpdate("d", "c", true, bD(), bD("$inc", bD("n", int32(1))), false))
 	add(cUpdate("d", "c", true, bD(), bD("$inc", bD("_id", int32(1))), false))
 	add(cUpdate("d", "c", true, bD("n", bD("$gte", int32(1))), bD("$mul", bD("n", "x")), false))
+	add(cUpdate("d", "c", true, bD(), bD("$set", bD("g.0.1", int32(99), "h.k.0.m.0", int32(98)), "$inc", bD("s", int32(1))), false))
+	add(cUpdate("d", "c", false, bD("_id", int32(5)), bD("$push", bD("g.1", int32(7)), "$set", bD("_id", int32(6))), false))
 	// single updates
 	add(cUpdate("d", "c", false, bD("_id", int32(1)), bD("$set", bD("a", int32(1)), "$unset", bD("a", "")), false))
 	add(cUpdate("d", "c", false, bD("_id", int32(1)), bD("$set", bD("a.b", int32(1), "a", int32(2))), false))
